@@ -15,18 +15,23 @@ Theorem ensure_no_wraparound : forall (m : mem) (additional : N),
   ensure m additional = true -> heap m + manual m + additional <= maxb m.
 Proof. exact ensure_sound. Qed.
 
-(* every guarded operation (string, object = function / closure / upvalue / empty vec, manual alloc, manual
-   free, sweep) keeps heap + manual <= max, leaves the state untouched unless it answers Ok, and -- for
-   objects and manual buffers -- checks before the host allocates *)
-Theorem guarded_ops_respect_limit_step : forall (m : mem) (o : gop), Inv m ->
-  let '(r, m', t) := gstep m o in
+(* EVERY allocating primitive -- strings, objects (functions / closures / upvalues / empty vecs), manual alloc
+   and free, sweep, sized array constructors, vec push, vec reserve, string.repeat, string.pad_*, byte buffers --
+   keeps heap + manual <= max, leaves the state untouched unless it answers Ok, and (all but the generic string
+   allocation, whose transient is built by the caller from data already held, and the byte buffers, which have
+   their own bound) consults the limit before the host allocates anything *)
+Theorem guarded_ops_respect_limit_step : forall (cap : N) (m : mem) (o : gop), Inv m ->
+  (match o with GVecPush v | GVecReserve v _ => vcharged v = vec_bytes v /\ vlen v <= vcap v | _ => True end) ->
+  let '(r, m', t) := gstep cap m o in
   Inv m' /\ maxb m' = maxb m /\ (r = ROk \/ m' = m) /\
-  (match o with GObj _ | GManual _ => check_first t = true | _ => True end).
+  (match o with GStr _ | GBytes _ | GManualFree _ | GSweep _ => True | GRepeat _ n => (0 < n)%Z -> check_first t = true
+              | _ => check_first t = true end).
 Proof. exact gstep_inv. Qed.
 
-(* ... in every history *)
-Theorem guarded_ops_respect_limit : forall (h : list gop) (m : mem),
-  Inv m -> Inv (grun m h) /\ maxb (grun m h) = maxb m.
+(* ... in every history (vecs enter a history with their charge equal to their size, which vec growth preserves:
+   vec_growth_accounted) *)
+Theorem guarded_ops_respect_limit : forall (cap : N) (h : list gop) (m : mem),
+  Inv m -> Forall vec_ok h -> Inv (grun cap m h) /\ maxb (grun cap m h) = maxb m.
 Proof. exact grun_inv. Qed.
 
 (* the manual allocator completely: Ok exactly for positive sizes that fit, the charge is exact, nothing
@@ -39,18 +44,17 @@ Theorem manual_alloc_total : forall (m : mem) (n : Z), maxb m < U64 -> Inv m ->
   ((n < 0)%Z -> r = RTypeErr) /\ (n = 0%Z -> r = RInvalidSize).
 Proof. exact manual_spec. Qed.
 
-(* sweep: an object that is swept at the size it was charged with is subtracted exactly ... *)
+(* sweep: an object that is swept at the size it was charged with is subtracted exactly; a vec's charge follows
+   its capacity (vec_growth_accounted), so this covers grown vecs too (before the repair of KF-C10-4 it did not:
+   Proofs.old_sweep_grown_witness) *)
 Theorem sweep_accounting : forall (m : mem) (charged : N), charged <= heap m ->
   heap (op_sweep m charged) = heap m - charged /\ manual (op_sweep m charged) = manual m.
 Proof. exact sweep_exact. Qed.
 Theorem sweep_preserves_invariant : forall (m : mem) (current : N), Inv m -> Inv (op_sweep m current).
 Proof. exact sweep_keeps_inv. Qed.
-(* ... but a vec is swept at its CURRENT capacity: after growth the budget loses bytes of other live objects *)
-Theorem sweep_accounting_grown_vec_refuted :
-  let m := mkMem 100040 0 1048576 in
-  let v := mkVec 1024 1024 40 in
-  heap (op_sweep m (vec_bytes v)) = 91816 /\ heap m - vcharged v = 100000.
-Proof. exact sweep_grown_witness. Qed.
+Theorem sweep_accounting_vec : forall (m : mem) (v : vecst), vcharged v = vec_bytes v -> vcharged v <= heap m ->
+  heap (op_sweep m (vec_bytes v)) = heap m - vcharged v.
+Proof. exact sweep_vec_exact. Qed.
 
 (* byte buffers: a non-positive or over-MAX_ALLOC size is refused before the host allocates anything;
    a granted request is at most MAX_ALLOC; the heap budget is never charged *)
@@ -61,51 +65,69 @@ Theorem bytes_alloc_host_bound : forall (cap : N) (m : mem) (n : Z),
   host_total (snd (op_bytes cap m n)) <= MAX_ALLOC /\ snd (fst (op_bytes cap m n)) = m.
 Proof. exact bytes_host_bound. Qed.
 
-(* ---- the unguarded paths of the faithful model (limit 1 MiB, 100 000 bytes in use, host grants 2^40) *)
-(* Array<Int>(200000): 1.6 MB are allocated on the host BEFORE the check refuses; Array<Int>(-1): the
-   negative count is cast to usize and vec![0; len] panics (capacity overflow); Array<Int>(10^12): the host
-   refuses 8 TB -> the process aborts *)
-Theorem array_new_checks_late_refuted :
-  op_array w_cap 8 w_mem 200000 = (ROom, w_mem, [EHost 1600000; ECheck 1600024 false]) /\
-  check_first (snd (op_array w_cap 8 w_mem 200000)) = false /\
-  op_array w_cap 8 w_mem (-1) = (RPanic, w_mem, []) /\
-  op_array w_cap 8 w_mem 1000000000000 = (RAbort, w_mem, [EHost 8000000000000]).
-Proof. exact array_late_check_witness. Qed.
-(* guarded: whenever the array constructor answers Ok the invariant holds (the charge itself is checked) *)
-Theorem array_new_ok_guarded : forall (cap e : N) (m : mem) (n : Z), Inv m ->
-  let '(r, m', _) := op_array cap e m n in Inv m' /\ (r = ROk \/ m' = m).
-Proof. exact array_ok_inv. Qed.
+(* ---- the primitives that were unguarded before the repairs of KF-C10-1..5 (the witnesses of the old behaviour
+   were array_new_checks_late / vec_growth_unaccounted / vec_reserve_unchecked / string_repeat_checks_late) *)
 
-(* 2000 pushes: capacity 2048, nothing re-accounted *)
-Theorem vec_growth_unaccounted_refuted :
-  let '(r, m', v') := push_many 2000 w_cap w_mem (mkVec 1 1 40) in
-  r = ROk /\ m' = w_mem /\ vlen v' = 2001 /\ vcap v' = 2048.
-Proof. exact vec_growth_witness. Qed.
-(* reserve(131072): 1 MiB of storage on top of 100 000 bytes in use, limit 1 MiB, answer Ok, nothing charged *)
-Theorem vec_growth_exceeds_limit_refuted :
-  let '(r, m', v', _) := op_vec_reserve w_cap w_mem (mkVec 1 1 40) 131072 in
-  r = ROk /\ m' = w_mem /\ maxb w_mem < held w_mem - vcharged v' + vec_bytes v'.
-Proof. exact vec_growth_over_limit_witness. Qed.
-Theorem vec_reserve_unchecked_refuted :
-  fst (fst (fst (op_vec_reserve w_cap w_mem (mkVec 1 1 40) (-1)))) = RPanic /\
-  fst (fst (fst (op_vec_reserve w_cap w_mem (mkVec 1 1 40) 1000000000000))) = RAbort.
-Proof. exact vec_reserve_witness. Qed.
+(* sized array constructors: the limit is consulted before anything is built; a negative size is a type error
+   with no event at all; a refusal never reaches the host *)
+Theorem array_new_checks_first : forall (cap e : N) (m : mem) (n : Z), Inv m ->
+  let '(r, m', t) := op_array cap e m n in
+  (Inv m' /\ maxb m' = maxb m /\ (r = ROk \/ m' = m)) /\ check_first t = true /\
+  ((n < 0)%Z -> r = RTypeErr /\ t = []) /\ (r = ROom \/ r = RTypeErr -> host_total t = 0).
+Proof. exact array_step. Qed.
 
-(* string.repeat / pad: the host string is built before the check; absurd sizes abort or panic *)
-Theorem string_repeat_checks_late_refuted :
-  op_repeat w_cap w_mem 16 100000 = (ROom, w_mem, [EHost 1600000; ECheck 1600024 false]) /\
-  fst (fst (op_repeat w_cap w_mem 16 100000000000)) = RAbort /\
-  fst (fst (op_pad true w_cap w_mem 16 (-1))) = RPanic /\
-  fst (fst (op_pad true w_cap w_mem 16 100000000000000)) = RAbort.
-Proof. exact repeat_late_check_witness. Qed.
-Theorem string_repeat_ok_guarded : forall (cap : N) (m : mem) (sl : N) (n : Z), Inv m ->
-  let '(r, m', _) := op_repeat cap m sl n in Inv m' /\ (r = ROk \/ m' = m).
-Proof. exact repeat_ok_inv. Qed.
+(* vec growth (the step behind push and reserve): checked first, and the charge follows the capacity exactly --
+   what the heap holds for the vec is what has been accounted, before and after *)
+Theorem vec_growth_accounted : forall (cap : N) (m : mem) (v : vecst) (add : N),
+  Inv m -> vcharged v = vec_bytes v -> vlen v <= vcap v ->
+  let '(r, m', v', t) := vec_grow cap m v add in
+  (Inv m' /\ maxb m' = maxb m /\ (r = ROk \/ m' = m)) /\ check_first t = true /\
+  vcharged v' = vec_bytes v' /\ vlen v' = vlen v /\ vcap v <= vcap v' /\
+  held m' + vec_bytes v = held m + vec_bytes v' /\
+  (r = ROk -> vlen v + add <= vcap v') /\ (r <> ROk -> v' = v /\ m' = m).
+Proof. exact vec_grow_step. Qed.
+
+Theorem vec_reserve_checked : forall (cap : N) (m : mem) (v : vecst) (a : Z),
+  Inv m -> vcharged v = vec_bytes v -> vlen v <= vcap v ->
+  let '(r, m', v', t) := op_vec_reserve cap m v a in
+  (Inv m' /\ maxb m' = maxb m /\ (r = ROk \/ m' = m)) /\ check_first t = true /\ vcharged v' = vec_bytes v' /\
+  held m' + vec_bytes v = held m + vec_bytes v' /\
+  ((a < 0)%Z -> r = RTypeErr) /\ (r <> ROk -> v' = v /\ m' = m).
+Proof. exact vec_reserve_step. Qed.
+
+(* string.repeat / pad_left / pad_right: the length of the result is checked before the host builds it *)
+Theorem string_repeat_checks_first : forall (cap : N) (m : mem) (sl : N) (n : Z), Inv m ->
+  let '(r, m', t) := op_repeat cap m sl n in
+  (Inv m' /\ maxb m' = maxb m /\ (r = ROk \/ m' = m)) /\
+  ((0 < n)%Z -> check_first t = true /\ (r = ROom -> host_total t = 0)).
+Proof. exact repeat_step. Qed.
+Theorem string_pad_checks_first : forall (cap : N) (m : mem) (sl : N) (w : Z), Inv m ->
+  let '(r, m', t) := op_pad cap m sl w in
+  (Inv m' /\ maxb m' = maxb m /\ (r = ROk \/ m' = m)) /\ check_first t = true /\ (r = ROom -> host_total t = 0).
+Proof. exact pad_step. Qed.
+
+(* the former counterexamples on the repaired definitions (limit 1 MiB, 100 000 bytes in use, host grants 2^40):
+   refused by the check, nothing allocated; 2000 pushes are charged 2047 * 8 bytes; reserve beyond the limit is
+   OutOfMemory *)
+Example former_counterexamples_now_refused :
+  (op_array w_cap 8 w_mem 200000 = (ROom, w_mem, [ECheck 1600024 false]) /\
+   op_array w_cap 8 w_mem (-1) = (RTypeErr, w_mem, []) /\
+   op_array w_cap 8 w_mem 1000000000000 = (ROom, w_mem, [ECheck 8000000000024 false])) /\
+  ((let '(r, m', v') := push_many 2000 w_cap w_mem (mkVec 1 1 40) in
+    r = ROk /\ vlen v' = 2001 /\ vcap v' = 2048 /\ vcharged v' = vec_bytes v' /\ held m' = held w_mem + 2047 * 8) /\
+   (let '(r, m', v', _) := op_vec_reserve w_cap w_mem (mkVec 1 1 40) 131072 in r = ROom /\ m' = w_mem) /\
+   fst (fst (fst (op_vec_reserve w_cap w_mem (mkVec 1 1 40) (-1)))) = RTypeErr /\
+   fst (fst (fst (op_vec_reserve w_cap w_mem (mkVec 1 1 40) 1000000000000))) = ROom) /\
+  (op_repeat w_cap w_mem 16 100000 = (ROom, w_mem, [ECheck 1600024 false]) /\
+   fst (fst (op_repeat w_cap w_mem 16 100000000000)) = ROom /\
+   op_pad w_cap w_mem 16 (-1) = (ROk, w_mem, []) /\
+   op_pad w_cap w_mem 16 100000000000000 = (ROom, w_mem, [ECheck 100000000000024 false])).
+Proof. exact (conj repaired_array_witness (conj repaired_vec_witness repaired_string_witness)). Qed.
 
 (* non-vacuity: a history that fills the budget exactly and is then refused *)
 Example C10_nonvacuous :
   let m0 := mkMem 100000 0 MIN_HEAP_BYTES in
   Inv m0 /\
-  fst (fst (gstep (grun m0 [GStr 1000; GManual 100000; GObj 4000; GSweep 1024; GManualFree 800000; GManual 100]) (GManual 117972))) = ROk /\
-  fst (fst (gstep (grun m0 [GStr 1000; GManual 100000; GObj 4000; GSweep 1024; GManualFree 800000; GManual 100]) (GManual 117973))) = ROom.
+  fst (fst (gstep w_cap (grun w_cap m0 [GStr 1000; GManual 100000; GObj 4000; GSweep 1024; GManualFree 800000; GManual 100]) (GManual 117972))) = ROk /\
+  fst (fst (gstep w_cap (grun w_cap m0 [GStr 1000; GManual 100000; GObj 4000; GSweep 1024; GManualFree 800000; GManual 100]) (GManual 117973))) = ROom.
 Proof. vm_compute. repeat split; try reflexivity. discriminate. Qed.
